@@ -173,6 +173,17 @@ pub fn check_parts(h: &Handles, p: &values::Parts, st: &mut Stats, mode: Count) 
     } else {
         st.class("method:unchanged");
     }
+    // a present-but-empty variant list (safe constructor from_raw_parts_unchecked; an empty list
+    // is 'deduplicated and ordered') must come through untouched as well
+    if li0.variants().len() == 0 {
+        let tw0 = LanguageIdentifier::from_raw_parts_unchecked(b.language, b.script, b.region, Some(Box::new([])));
+        let mut tw = tw0.clone();
+        let ct = tw.minimize();
+        let want = LanguageIdentifier::from_raw_parts_unchecked(li.language, li.script, li.region, Some(Box::new([])));
+        if ct != c || tw != want {
+            st.fail("method:present-but-empty-variant-list-touched", case(), size, format!("{li0} built with Some([]): minimize() = {ct}, the result is not the same identifier with Some([]) variants"));
+        }
+    }
     if li.variants().collect::<Vec<_>>() != li0.variants().collect::<Vec<_>>() {
         st.fail("method:variants-touched", case(), size, format!("{li0} -> {li}"));
     }
